@@ -361,6 +361,9 @@ def worker_main(argv):
     if hasattr(mod, "init_worker"):
         mod.init_worker(ctx)
     for name, fn in mod.LAYERS:
+        if ctx.stats.violations and not getattr(mod, "ALL_LAYERS_AFTER_VIOLATION", False):
+            ctx.stats.notes.append("layer %s skipped in shard %d: an earlier layer already found a violation" % (name, ctx.shard))
+            continue
         ctx.layer = name
         fn(ctx)
         ctx.layer = None
